@@ -56,6 +56,7 @@ func NewJavaFullListener(nodes map[string]core_domain.CodeDataStruct, file strin
 	creatorMethodMap = make(map[string]core_domain.CodeFunction)
 	currentCreatorNode = *core_domain.NewDataStruct()
 	currentType = ""
+	hasEnterClass = false
 
 	initClass()
 	return &JavaFullListener{}
@@ -82,7 +83,10 @@ func (s *JavaFullListener) GetNodeInfo() []core_domain.CodeDataStruct {
 }
 
 func (s *JavaFullListener) ExitClassBody(ctx *parser.ClassBodyContext) {
-	hasEnterClass = false
+	// the body of an anonymous class ends inside a member of the enclosing class: that class is still open
+	if _, anonymous := ctx.GetParent().(*parser.ClassCreatorRestContext); !anonymous {
+		hasEnterClass = false
+	}
 	s.exitBody()
 }
 
